@@ -16,8 +16,17 @@ def kvOf (w : List String) : List (String × String) :=
 
 def kvNat? (kv : List (String × String)) (k : String) : Option Nat := (kv.lookup k).bind (·.toNat?)
 
+/-- the places of package quickfix that mutate the outbound side of the message store directly, as the lock-level model
+    knows them: `dropAndReset` and `prepMessageForSend` (`storeReset`, inside sendMutex), `persist` (`persistIncr` /
+    `incrOnly`, inside sendMutex), and the administrative API `SetNextSenderMsgSeqNum` (outside the model: not to be used
+    while the session sends) -/
+def concStoreMutators : List String :=
+  ["SetNextSenderMsgSeqNum:SetNextSenderMsgSeqNum", "dropAndReset:Reset", "persist:IncrNextSenderMsgSeqNum",
+   "persist:SaveMessageAndIncrNextSenderMsgSeqNum", "prepMessageForSend:Reset"]
+
 def concStep (_ : Unit) (w : List String) : Unit × String :=
   match w with
+  | ["srcfacts"] => ((), joinSp ("facts" :: concStoreMutators))
   | "round" :: rest =>
     let kv := kvOf rest
     match kvNat? kv "senders", kvNat? kv "per", kvNat? kv "tr", kvNat? kv "persist" with
